@@ -206,6 +206,11 @@ def r4_absent_reads_none(ctx):
         emp = [(e_, bi_) for bi_, e_ in q.call_exprs(b, "is_empty") if "Tree::get" in sig(e_)]
         seen_ = set()
         ats = [a for a in ats if not (a[1] in seen_ or seen_.add(a[1]))]
+        if not ats and not emp:
+            other = [a for a in q.int_switch_atoms(b) if "len(Tree::get" in a[1]]
+            if other:
+                r.violation(m + "/absent=>none", "%s tests the length of the stored bytes against %s, not against 0: the empty string of an absent key is handed to the decoder (a lookup of an absent key aborts)" % (m, other[0][1][:60]), b.where(other[0][2]))
+                continue
         if len(ats) + len(emp) != 1:
             r.undecided(m + "/absent", "%s: the emptiness test of the stored bytes is not read (%d candidates)" % (m, len(ats) + len(emp)))
             continue
